@@ -63,7 +63,7 @@ REQUIRED_COUNTERS = [
     'same_object_twice', 'name_clash_str_object',
     'unhashable_item', 'unhashable_ballot', 'unhashable_inner_item',
     'shared_rank_3plus', 'empty_shared_rank', 'rank_as_list', 'rank_as_set', 'rank_as_tuple', 'rank_as_dict',
-    'score_dup_equal_score', 'score_dup_diff_score', 'hash_alike_scores',
+    'score_dup_equal_score', 'score_dup_diff_score', 'hash_alike_scores', 'level_miss_hash_alike',
     'score_decimal_7plus', 'score_zero_fraction', 'score_zero_decimal', 'score_float', 'score_bool',
     'op:validate_seq', 'seq_valid_after_invalid', 'other_validator_first', 'elim_mixed_kinds',
     'ballot_len_0', 'ballot_len_1', 'ballot_len_50plus',
@@ -950,7 +950,7 @@ def gen_ranked(rng, tags, hashable=False, nom=None):
     return {'vt': 'ranked', 'total': total, 'rank': rank, 'nom': nom}, {'t': ranks}
 
 
-LEVEL_SETS = [[S(0), S(1), N(1)], [N(0), N(1), N(2), N(3)], [N(-1), N(0), N(1)], [S(8), S(9)], [S(6), S(7), N(1)], [N(Fraction(1, 2)), N(1), N(5)],
+LEVEL_SETS = [[S(0), S(1), N(1)], [N(-2), N(0), N(5)], [N(0), N(1), N(2), N(3)], [N(-1), N(0), N(1)], [S(8), S(9)], [S(6), S(7), N(1)], [N(Fraction(1, 2)), N(1), N(5)],
               [None, N(1)], [], [{'t': []}, {'f': [S(1), S(0)]}, N(1), Cd('party', 0)]]
 
 
@@ -1041,7 +1041,16 @@ def gen_score(rng, tags, vt, hashable=False, nom=None):
                 tags.append('level_miss')
         elif m < 0.85:
             if vt == 'enum':
-                items[i] = {'t': [cands[i], N(99)]}
+                numeric = [Fraction(x['n']) for x in levels if is_num(x) and Fraction(x['n']).denominator == 1]
+                miss = N(99)
+                if numeric and rng.random() < 0.5:
+                    # a score that is no level but hashes like one: hash(-1) == hash(-2), hash(x) == hash(x + 2**61 - 1)
+                    lv = rng.choice(numeric)
+                    alike = Fraction(-1) if lv == -2 else lv + 2 ** 61 - 1
+                    if alike not in numeric:
+                        miss = N(alike)
+                        tags.append('level_miss_hash_alike')
+                items[i] = {'t': [cands[i], miss]}
                 tags.append('level_miss')
             else:
                 hi = val['range'][1]
@@ -1231,6 +1240,10 @@ def directed(rng):
     out.append(mk_case(rv, {'f': [{'t': [S(0), N(1)]}, {'t': [S(0), N(1)]}]}, ['score_dup']))
     out.append(mk_case(rv, {'f': [{'t': [S(0), N(1)]}, {'t': [S(0), N(1, F=True)]}]}, ['score_dup']))
     out.append(mk_case(rv, {'f': [{'t': [S(0), N(1)]}, {'t': [S(0), N(2)]}]}, ['score_dup', 'duplicate']))
+    out.append(mk_case({'vt': 'enum', 'n': [None, None], 'sum': {'all': [None, None]}, 'nom': basic, 'levels': [N(-2), N(5)]},
+                       {'f': [{'t': [S(0), N(-1)]}]}, ['level_miss', 'level_miss_hash_alike']))
+    out.append(mk_case({'vt': 'enum', 'n': [None, None], 'sum': {'all': [None, None]}, 'nom': basic, 'levels': [N(-2), N(5)]},
+                       {'f': [{'t': [S(0), N(5 + 2 ** 61 - 1)]}, {'t': [S(1), N(-2)]}]}, ['level_miss', 'level_miss_hash_alike']))
     out.append(mk_case(dict(rv, n=[None, None]), {'f': [{'t': [S(0), N(-1)]}, {'t': [S(1), N(-2)]}, {'t': [S(2), N(5)]}, {'t': [S(3), N(5 + 2 ** 61 - 1)]}]},
                        ['hash_alike_scores']))
     # one validator object, several ballots: larger then smaller, after a rejection, after a differently configured one
@@ -1356,7 +1369,7 @@ def gen_long(rng):
     cands = [S(i) for i in rng.sample(range(12, 140), n - 4)] + [Cd('person_party', 0), Cd('party', 3), S(4), Cd('blank', 2)]
     rng.shuffle(cands)
     tags = ['long_ballot']
-    defect = rng.choice(['none', 'none', 'dup', 'bad', 'count'])
+    defect = rng.choice(['none', 'none', 'dup', 'bad', 'count', 'rankbound'])
     cb = [str(n), str(n)] if defect != 'count' else rng.choice([[str(n + 1), None], [None, str(n - 1)]])
     if vt == 'approval':
         xs = list(cands)
@@ -1369,7 +1382,8 @@ def gen_long(rng):
             ranks[-3] = ranks[2]
         if defect == 'bad':
             ranks[-4] = {'l': [S(0)]}
-        return mk_case({'vt': vt, 'total': cb, 'rank': {'by': [[len(ranks) - 1, ['3', '3']], [len(ranks), [None, '3']], [70, ['9', '9']]]},
+        last = ['4', None] if defect == 'rankbound' else [None, '3']       # a bound that fails only at the very last rank
+        return mk_case({'vt': vt, 'total': cb, 'rank': {'by': [[len(ranks) - 1, ['3', '3']], [len(ranks), last], [70, ['9', '9']]]},
                         'nom': nom}, {'t': ranks}, tags)
     scores = [N(rng.randint(0, 3)) for _ in cands]
     total = sum(Fraction(x['n']) for x in scores)
